@@ -360,6 +360,12 @@ def _derives_pop(f, key_text, popvars):
             pv |= names_in(ast.parse(p, mode='eval'))
         except SyntaxError:
             pass
+    # names unpacked / copied from the popped element count as the popped element: (q1, q2) = pair
+    for _ in range(3):
+        for st in walk_no_nested(f.node):
+            if isinstance(st, ast.Assign) and isinstance(st.value, (ast.Name, ast.Subscript, ast.Attribute)) and names_in(st.value) & pv and names_in(st.value) <= pv | set():
+                for t in st.targets:
+                    pv |= names_in(t)
     return bool(kn & pv)
 
 
